@@ -141,6 +141,25 @@ fn check_variants(rep: &Report, cnt: &Cnt, dir: &std::path::Path, tag: usize, co
             Ok(Err(e)) => rep.violation("C11:streaming_error", &format!("streaming variant failed: {e}"), det()),
             Err(m) => rep.violation("C11:panic", &format!("streaming variant panicked: {m}"), det()),
         }
+        // the whole first FILE is the reference in multi-file mode, whatever sample#haplotype prefixes its
+        // headers carry (e.g. a phased diploid assembly REF#1#..., REF#2#...)
+        if contigs.len() >= 2 {
+            let p3 = dir.join(format!("dip{tag}_{w}.fa"));
+            let mut txt = String::new();
+            for (i, c) in contigs.iter().enumerate() {
+                txt.push_str(&fasta_of(&[c.clone()], &format!("ref#{}", 1 + i % 2), w).replace("#ctg0", &format!("#ctg{i}")).replace(&format!("ref#{}#0#", 1 + i % 2), &format!("ref#{}#", 1 + i % 2)));
+            }
+            std::fs::write(&p3, txt).unwrap();
+            cnt.variant_calls.fetch_add(1, Ordering::Relaxed);
+            match guarded(|| determine_splitters_streaming(&p3, k, seg)) {
+                Ok(Ok(x)) => if x != base {
+                    rep.violation("C11:streaming_variant_differs", "determine_splitters_streaming on a reference file with two sample#haplotype prefixes differs from determine_splitters on the same contigs", json!({"case": det(), "line_width": w, "mem": sets_json(&base.0), "stream": sets_json(&x.0)}));
+                },
+                Ok(Err(e)) => rep.violation("C11:streaming_error", &format!("streaming variant failed: {e}"), det()),
+                Err(m) => rep.violation("C11:panic", &format!("streaming variant panicked: {m}"), det()),
+            }
+            let _ = std::fs::remove_file(&p3);
+        }
         // first-sample variant: same reference followed by another sample that must be ignored
         let mut txt = fasta_of(contigs, "ref", w);
         let other: Vec<Vec<u8>> = contigs.iter().map(|c| rc_contig(c)).chain(std::iter::once(vec![0, 1, 2, 3, 0, 0, 1, 1, 2, 2, 3, 3])).collect();
